@@ -16,7 +16,7 @@ Check(e) ==
          /\ Report(e.out # "ok" \/ e.back_same, <<"BAD", "conformant-encoding-not-recovered", l>>)
     [] e.ev = "parse" ->            \* specification-conformant RDATA built by the harness from raw key material
          /\ Report(e.out = "ok", <<"BAD", IF e.kind = "ed448" THEN "ed448-57-octet-key-rejected" ELSE "conformant-rdata-rejected", l>>)
-         /\ Report(e.out # "ok" \/ e.key_bytes_kept, <<"BAD", "key-bytes-dropped", l>>)
+         /\ Report(e.out # "ok" \/ e.key_bytes_kept, <<"BAD", IF e.kind = "idn-name" THEN "conformant-rdata-not-recomposed" ELSE "key-bytes-dropped", l>>)
 Init == l = 1
 Next == l <= Len(T) /\ Check(T[l]) /\ l' = l + 1
 Spec == Init /\ [][Next]_l
